@@ -167,6 +167,41 @@ func runLimits(seed uint64, cas int, tier string) *LimRes {
 	s.srv.WaitIdle()
 	s.fullCheck("dump", "after the write-size cases")
 
+	// ---- many names of the maximum length in one directory -----------------
+	// (an entry of a long name needs more reply bytes than directory bytes:
+	// anything that sizes a scan of the directory by its length stops early)
+	if md := s.exec(&Op{K: OpMkdir, H: srv.Root, Name: "maxnames"}); md.Stat == stOK {
+		var names []string
+		for i := 0; i < 44; i++ {
+			n := fmt.Sprintf("%03d", i) + longName(lim.NameMax-3-(i%3), 'M')
+			names = append(names, n)
+			if r := s.exec(&Op{K: OpCreate, H: md.FH, Name: n}); r.Stat != stOK {
+				viol("name #%d of %d bytes (announced name_max %d) in one directory: CREATE status %d", i, len(n), lim.NameMax, r.Stat)
+				break
+			}
+		}
+		for round := 0; round < 3; round++ {
+			switch round {
+			case 1: // a request that fails after it has locked the directory
+				s.exec(&Op{K: OpCreate, H: md.FH, Name: names[0]})
+			case 2:
+				s.restart()
+			}
+			for i, n := range names {
+				if r := s.exec(&Op{K: OpLookup, H: md.FH, Name: n}); r.Stat != stOK {
+					viol("name #%d of %d bytes cannot be looked up (status %d) although it was created (round %d)", i, len(n), r.Stat, round)
+					break
+				}
+			}
+			s.exec(&Op{K: OpCreate, H: md.FH, Name: names[len(names)-1]}) // must be refused: it exists
+			s.exec(&Op{K: OpReaddir, H: md.FH, Count: 1 << 20})
+		}
+		note("namemax", 0, "44 names of the maximum length in one directory", true)
+		for _, n := range names {
+			s.exec(&Op{K: OpRemove, H: md.FH, Name: n})
+		}
+		s.exec(&Op{K: OpRmdir, H: srv.Root, Name: "maxnames"})
+	}
 	// ---- file sizes ----------------------------------------------------
 	mx := lim.MaxFileSize
 	type fcase struct {
